@@ -10,6 +10,7 @@ mod fw;
 mod gen;
 mod model;
 mod props;
+mod world;
 
 use std::path::PathBuf;
 
